@@ -68,11 +68,11 @@ TruthsI == {[Base(plus) EXCEPT !.info = inf, !.events = <<Ev(100, 350, [c \in {"
               plus \in BOOLEAN, inf \in {[c \in {key} |-> v] : key \in InfoKeys, v \in {1, 2}} \cup {[c \in InfoKeys |-> 1], [c \in InfoKeys |-> 2]}}
 
 Truths(fam) == CASE fam = "S" -> TruthsS [] fam = "E" -> TruthsE [] fam = "F" -> TruthsF [] fam = "I" -> TruthsI
-BaseV == [eols |-> {"lf"}, boms |-> {FALSE}, radix |-> {"dec"}, nls |-> {"N"}, stars |-> {FALSE}, noise |-> FALSE]
+BaseV == [eols |-> {"lf"}, boms |-> {FALSE}, radix |-> {"dec"}, nls |-> {"N"}, stars |-> {FALSE}, noise |-> FALSE, first |-> {"styles"}]
 WideV(v) == IF Wide THEN [v EXCEPT !.eols = {"lf", "crlf", "cr"}, !.boms = BOOLEAN, !.radix = {"dec", "hex"}] ELSE v
 VarsN(fam) == CASE fam = "S" -> [BaseV EXCEPT !.radix = {"dec", "hex"}]
                [] fam = "E" -> [BaseV EXCEPT !.nls = {"N", "n", "mix"}, !.stars = BOOLEAN]
-               [] fam = "F" -> [BaseV EXCEPT !.eols = {"lf", "crlf", "cr"}, !.boms = BOOLEAN, !.radix = {"dec", "hex"}, !.noise = TRUE]
+               [] fam = "F" -> [BaseV EXCEPT !.eols = {"lf", "crlf", "cr"}, !.boms = BOOLEAN, !.radix = {"dec", "hex"}, !.noise = TRUE, !.first = {"styles", "events"}]
                [] fam = "I" -> [BaseV EXCEPT !.noise = TRUE]
 Vars(fam) == WideV(VarsN(fam))
 SP(fam, G) == IF G.styles = <<>> THEN {<<>>} ELSE IF fam = "S" THEN Perms(StyleCols(G)) ELSE IF fam = "E" THEN {SetToSeq(StyleCols(G))} ELSE ThreeOrders(StyleCols(G))
